@@ -21,3 +21,7 @@ func TestC15(t *testing.T) {
 func TestC16(t *testing.T) {
 	sim.Main(t, sim.Spec{Property: "C16", Engine: "E3-tasks", Run: RunFetcher})
 }
+
+func TestC17(t *testing.T) {
+	sim.Main(t, sim.Spec{Property: "C17", Engine: "E3-tasks", Run: RunSeeder})
+}
